@@ -486,6 +486,70 @@ def run_pair(rng, counters, violations, sigs):
     sigs.add(h(("pair", async_variant, tuple(p["kind"] for p in p0), tuple(p["kind"] for p in p1))))
 
 
+REEXEC_SRC = '''
+class ReM(StateMachine):
+    s0 = State(initial=True)
+    s1 = State()
+    go = s0.to(s1)
+    back = s1.to(s0)
+    def on_go(self{sig}):
+        return NOTE(locals())
+'''
+
+
+def run_reexec(rng, counters, violations, sigs, rounds=40):
+    """The same class and callback names compiled again and again (notebook cell re-run, exec, generated
+    classes) with different signatures; earlier generations are dropped and garbage collected."""
+    import gc
+
+    from statemachine import State, StateMachine
+
+    for r in range(rounds):
+        params = gen_signature(rng)
+        notes = []
+        tagger = Tagger()
+        sig = B.signature_source(params)
+        src = "\n".join(f"DEF_{p['name']} = 'DEF_{p['name']}'" for p in params if p["default"]) + REEXEC_SRC.format(sig=(", " + sig) if sig else "")
+        ns = {"State": State, "StateMachine": StateMachine, "NOTE": lambda loc: notes.append({a: tagger.tag(b) for a, b in loc.items()}),
+              "__name__": "vmon_c07_reexec"}
+        exec(compile(src, "<c07-reexec>", "exec"), ns)
+        sm = ns["ReM"]()
+        tagger.sm, tagger.model = sm, sm.model
+        for _ in range(2):
+            shape = gen_shape(rng, params)
+            shape["reserved"] = {}
+            shape["ukw"].pop("key", None)
+            avail = expected_available(shape, "go", "s0", "s1", "on")
+            v = B.verdict(params, shape["args"], avail)
+            del notes[:]
+            try:
+                sm.go(*shape["args"], **shape["ukw"])
+                outcome = "ok"
+            except Exception as err:  # noqa: BLE001
+                outcome = type(err).__name__ + ": " + str(err)[:100]
+            try:
+                if sm.current_state.id == "s1":
+                    sm.send("back")
+            except Exception:  # noqa: BLE001
+                pass
+            if v[0] != "bind":
+                continue
+            counters["reexec_checked"] = counters.get("reexec_checked", 0) + 1
+            wit = {"source": src, "round": r, "shape": shape, "params": params}
+            if outcome != "ok":
+                violations.append({"mechanism": "recompiled-same-name-class:" + outcome.split(":")[0], "rule": "C07.own-signature-only",
+                                   "detail": f"round {r}: {outcome}", "witness": wit})
+                return
+            ok, exp, obs = compare(v[1], notes[0] if notes else {}, params)
+            if not ok:
+                violations.append({"mechanism": "recompiled-same-name-class:binding-differs", "rule": "C07.own-signature-only",
+                                   "detail": f"round {r}: expected {exp} observed {obs}", "witness": wit})
+                return
+        del sm, ns
+        gc.collect()
+    sigs.add(h(("reexec", rounds)))
+
+
 def plan(tier, seed):
     n, per = (16, 120) if tier == "quick" else (64, 900)
     return [{"seed": seed * 7919 + i * 31 + 5, "count": per} for i in range(n)]
@@ -502,6 +566,8 @@ def run_shard(desc):
             run_forwarded(rng, counters, violations, sigs)
         if i % 3 == 1:
             run_pair(rng, counters, violations, sigs)
+        if i % 40 == 7:
+            run_reexec(rng, counters, violations, sigs)
     byk = {}
     for v in violations:
         byk.setdefault(v["mechanism"], []).append(v)
